@@ -1685,7 +1685,15 @@ std::string Generator::GeneratorImpl::generateCode(const AnalyserEquationAstPtr 
             valueCode = "(" + valueCode + ")";
         }
 
-        code = generatePiecewiseIfCode(generateCode(ast->rightChild()), valueCode);
+        auto conditionCode = generateCode(ast->rightChild());
+
+        // Likewise for a piecewise statement used as the condition of a piece.
+
+        if (isPiecewiseStatement(ast->rightChild())) {
+            conditionCode = "(" + conditionCode + ")";
+        }
+
+        code = generatePiecewiseIfCode(conditionCode, valueCode);
     } break;
     case AnalyserEquationAst::Type::OTHERWISE:
         code = generateCode(ast->leftChild());
